@@ -7,13 +7,13 @@ s = open(p).read()
 rows, stats = [], {}
 for d in sorted(glob.glob(os.path.join(HERE, 'seeded', '*', 'meta.json'))):
     m = json.load(open(d))
-    rnd = {'A': 1, 'B': 1, 'C': 2, 'D': 2, 'E': 3, 'F': 3, 'G': 4, 'H': 4, 'I': 5, 'J': 5, 'K': 6, 'L': 6, 'M': 7, 'N': 7, 'P': 8, 'Q': 8}[m['id'][-1]]
+    rnd = {'A': 1, 'B': 1, 'C': 2, 'D': 2, 'E': 3, 'F': 3, 'G': 4, 'H': 4, 'I': 5, 'J': 5, 'K': 6, 'L': 6, 'M': 7, 'N': 7, 'P': 8, 'Q': 8, 'R': 9, 'S': 9}[m['id'][-1]]
     st = stats.setdefault(rnd, [0, 0, 0])
     det = m['detection']
     if det.startswith('MISSED'):
         out = 'missed at first, caught after widening the generator'; st[1] += 1
     elif det.startswith('NOT DETECTED'):
-        out = 'not detected: ' + ('outside the statement\'s quantification' if 'quantification' in det else 'unobservable under the node model'); st[2] += 1
+        out = 'not detected: ' + ('outside the statement\'s quantification' if 'quantification' in det else 'entry point not driven by the check' if ('does not drive' in det or 'drives only' in det) else 'unobservable under the node model'); st[2] += 1
     else:
         out = 'caught as built'; st[0] += 1
     rows.append(f"| {m['id']} | {m['change'][:170]} | {m['needs_to_manifest'][:150]} | {out} |")
